@@ -27,6 +27,31 @@ func init() {
 	runner.Register("c13.stream", c13Stream)
 }
 
+// ioDeadline / ioBlocked: the streaming ops wait for the library with a generous deadline of their own.
+// A correct parser never gets near it. When it is hit the library call is stuck for good (or spinning): the
+// request ends as `timeout` through runner.TimeoutNow (the process exits, taking the stuck goroutines with
+// it) and a marker for this check run (keyed by the parent process) is left, so that the following
+// requests of a run that has already failed wait only briefly — a broken parser that blocks on every
+// case then costs minutes, not hours.
+func ioMarker() string { return fmt.Sprintf("%s/io-blocked-%d", c13TmpDir(), os.Getppid()) }
+
+func ioDeadline(ms int) time.Duration {
+	// the marker counts only if it was written during the life of the parent process (pids are reused)
+	if st, err := os.Stat(ioMarker()); err == nil {
+		if ps, err := os.Stat(fmt.Sprintf("/proc/%d", os.Getppid())); err == nil && st.ModTime().After(ps.ModTime()) {
+			if ms > 500 {
+				ms = 500
+			}
+		}
+	}
+	return time.Duration(ms) * time.Millisecond
+}
+
+func ioBlocked() {
+	_ = os.WriteFile(ioMarker(), []byte("a library call did not return within its deadline\n"), 0o644)
+	runner.TimeoutNow()
+}
+
 func c13TmpDir() string {
 	d := os.Getenv("VERIF_TMP")
 	if d == "" {
@@ -327,13 +352,19 @@ func c13Stream(args []string) ([]string, error) {
 		}
 	}
 	var got []fasta.Fasta
+	deadline := time.After(ioDeadline(20000) + time.Duration(longStall)*time.Millisecond)
+recvLoop:
 	for {
 		pause()
-		f, ok := <-ch
-		if !ok {
-			break
+		select {
+		case f, ok := <-ch:
+			if !ok {
+				break recvLoop
+			}
+			got = append(got, f)
+		case <-deadline:
+			ioBlocked() // the channel was neither fed nor closed: does not return
 		}
-		got = append(got, f)
 	}
 	closedOnce := true
 	select {
